@@ -6,6 +6,8 @@
 //
 //	sel  <max> <selector prefix form>   -> v=<verdict> wf=<0|1> enc=<node prefix form>
 //	node <max> <node prefix form>       -> v=<verdict>
+//	alt  <max> <k> <k selector tokens> <node prefix form>  -> v=<verdict> parses=<0|1>
+//	     (the node is a non-canonical encoding of the selector: shuffled / extra keys …)
 //
 // selector prefix form:  m | ms a b | a S | f n (s:key S)* | i idx S | r a b S
 //
@@ -636,6 +638,36 @@ func Run(cases []reg.Case, out *reg.Out) {
 				if wf && nodeAllBounded(n, max) != s.AllBounded(max) {
 					out.Fail("oracle-self-check", "the two reference descents disagree on `%s`", s.String())
 				}
+			case "alt":
+				// alt <max> <k> <k selector tokens> <node tokens>: a non-canonical encoding of the selector
+				k, err := strconv.Atoi(op[2])
+				if err != nil || k < 1 || 3+k >= len(op) {
+					out.Line("bad-op")
+					continue
+				}
+				s, rest, err := ParseSel(op[3 : 3+k])
+				if err != nil || len(rest) != 0 {
+					out.Line("bad-op")
+					continue
+				}
+				n, rest2, err := ParseNode(op[3+k:])
+				if err != nil || len(rest2) != 0 {
+					out.Line("bad-op")
+					continue
+				}
+				v := Validate(n, max)
+				parses := Parses(n)
+				pi := 0
+				if parses {
+					pi = 1
+				}
+				out.Line("v=%s parses=%d", v, pi)
+				out.Cov("alt:v=" + v)
+				out.Cov(fmt.Sprintf("alt:parses=%d", pi))
+				judge(out, "a non-canonical encoding of selector `"+s.String()+"`", parses, s.AllBounded(max), v, max)
+				if parses && nodeAllBounded(n, max) != s.AllBounded(max) {
+					out.Fail("oracle-self-check", "the two reference descents disagree on an alternative encoding of `%s`", s.String())
+				}
 			case "node":
 				n, rest, err := ParseNode(op[2:])
 				if err != nil || len(rest) != 0 {
@@ -810,6 +842,202 @@ func mutateNode(r *rand.Rand, toks []string) []string {
 	return out
 }
 
+// ---------------------------------------------------------------- non-canonical encodings
+
+var junkValues = []string{"N", "I7", "s:q", "K1", "M0", "L0", "T",
+	"M1 s:R M2 s:l M1 s:none M0 s::> M1 s:a M1 s:> M1 s:@ M0", // an unbounded recursion where no selector is expected
+	"M1 s:R M2 s:l M1 s:depth I101 s::> M1 s:@ M0"}
+var extraKeys = []string{"x", "zz", "&", "extra", "0", "R", "none", "depth", "f", "|", "~", "."}
+
+type variantCfg struct {
+	r       *rand.Rand
+	breakAt int // index (pre-order) of the clause to damage, -1 = none
+	seen    int
+}
+
+type entry struct{ key, val string }
+
+// body writes a clause body map: the real entries plus unknown ones, in random order
+func (vc *variantCfg) body(entries []entry, avoid ...string) string {
+	n := vc.r.Intn(3)
+	if vc.r.Intn(3) == 0 {
+		n = 0
+	}
+	for i := 0; i < n; i++ {
+		k := extraKeys[vc.r.Intn(len(extraKeys))]
+		clash := false
+		for _, e := range entries {
+			if e.key == k {
+				clash = true
+			}
+		}
+		for _, a := range avoid {
+			if a == k {
+				clash = true
+			}
+		}
+		if !clash {
+			entries = append(entries, entry{k, junkValues[vc.r.Intn(len(junkValues))]})
+		}
+	}
+	vc.r.Shuffle(len(entries), func(i, j int) { entries[i], entries[j] = entries[j], entries[i] })
+	var sb strings.Builder
+	fmt.Fprintf(&sb, "M%d", len(entries))
+	for _, e := range entries {
+		sb.WriteString(" s:" + e.key + " " + e.val)
+	}
+	return sb.String()
+}
+
+// Variant: node tokens of an alternative encoding of s that go-ipld-prime should read as s
+// (or, at the clause numbered breakAt, deliberately should not).
+func (s *Sel) Variant(vc *variantCfg) string {
+	me := vc.seen
+	vc.seen++
+	broken := me == vc.breakAt
+	clause := func(key, body string) string {
+		if broken && vc.r.Intn(3) == 0 {
+			// a second entry in the keyed union
+			return fmt.Sprintf("M2 s:%s %s s:x N", key, body)
+		}
+		if broken && vc.r.Intn(3) == 0 {
+			return fmt.Sprintf("M1 s:%s %s", key, []string{"N", "L0", "I1", "s:q"}[vc.r.Intn(4)])
+		}
+		return fmt.Sprintf("M1 s:%s %s", key, body)
+	}
+	next := func() entry {
+		if broken && vc.r.Intn(2) == 0 {
+			return entry{">>", s.Kids[0].Variant(vc)} // required field missing (misspelt)
+		}
+		return entry{">", s.Kids[0].Variant(vc)}
+	}
+	switch s.Kind {
+	case "m":
+		return clause(".", vc.body(nil, "subset"))
+	case "ms":
+		sub := vc.body([]entry{{"[", fmt.Sprintf("I%d", s.A)}, {"]", fmt.Sprintf("I%d", s.B)}})
+		if broken {
+			sub = "I5"
+		}
+		return clause(".", vc.body([]entry{{"subset", sub}}))
+	case "e":
+		return clause("@", vc.body(nil))
+	case "a":
+		return clause("a", vc.body([]entry{next()}))
+	case "i":
+		return clause("i", vc.body([]entry{{"i", fmt.Sprintf("I%d", s.A)}, next()}))
+	case "r":
+		return clause("r", vc.body([]entry{{"^", fmt.Sprintf("I%d", s.A)}, {"$", fmt.Sprintf("I%d", s.B)}, next()}))
+	case "t":
+		as := "s:" + s.Adl
+		if broken && vc.r.Intn(2) == 0 {
+			as = "I3"
+		}
+		return clause("~", vc.body([]entry{{"as", as}, next()}))
+	case "u":
+		var sb strings.Builder
+		fmt.Fprintf(&sb, "L%d", len(s.Kids))
+		for _, k := range s.Kids {
+			sb.WriteString(" " + k.Variant(vc))
+		}
+		if broken {
+			return "M1 s:| M0"
+		}
+		return "M1 s:| " + sb.String()
+	case "f":
+		var es []entry
+		for j, k := range s.Kids {
+			es = append(es, entry{s.Keys[j], k.Variant(vc)})
+		}
+		// the f> map holds exactly the fields (every entry there is a selector), order as given
+		var sb strings.Builder
+		fmt.Fprintf(&sb, "M%d", len(es))
+		for _, e := range es {
+			sb.WriteString(" s:" + e.key + " " + e.val)
+		}
+		return clause("f", vc.body([]entry{{"f>", sb.String()}}))
+	case "R":
+		var lim string
+		switch {
+		case s.None:
+			lim = "M1 s:none " + junkValues[vc.r.Intn(7)]
+		default:
+			lim = fmt.Sprintf("M1 s:depth I%d", s.Depth)
+		}
+		if broken && vc.r.Intn(2) == 0 {
+			lim = fmt.Sprintf("M2 s:depth I%d s:none M0", s.Depth)
+		}
+		es := []entry{{"l", lim}, {":>", s.Kids[0].Variant(vc)}}
+		if s.Stop >= 0 {
+			es = append(es, entry{"!", fmt.Sprintf("M1 s:/ K%d", s.Stop)})
+		} else if broken {
+			es = append(es, entry{"!", "M0"})
+		}
+		return clause("R", vc.body(es, "!"))
+	}
+	panic("unknown kind")
+}
+
+func (s *Sel) size() int {
+	n := 1
+	for _, k := range s.Kids {
+		n += k.size()
+	}
+	return n
+}
+
+// genDeep: an unbounded / too deep / fine recursion beneath `depth` nested clauses
+func genDeep(r *rand.Rand, depth int) *Sel {
+	var inner *Sel
+	switch r.Intn(3) {
+	case 0:
+		inner = &Sel{Kind: "R", None: true, Stop: -1}
+	case 1:
+		inner = &Sel{Kind: "R", Depth: 101, Stop: -1}
+	default:
+		inner = &Sel{Kind: "R", Depth: 100, Stop: -1}
+	}
+	inner.Kids = []*Sel{{Kind: "a", Kids: []*Sel{{Kind: "e"}}}}
+	cur := inner
+	for i := 0; i < depth; i++ {
+		switch r.Intn(6) {
+		case 0:
+			cur = &Sel{Kind: "a", Kids: []*Sel{cur}}
+		case 1:
+			cur = &Sel{Kind: "i", A: 0, Kids: []*Sel{cur}}
+		case 2:
+			cur = &Sel{Kind: "r", A: 0, B: 2, Kids: []*Sel{cur}}
+		case 3:
+			cur = &Sel{Kind: "t", Adl: "unixfs", Kids: []*Sel{cur}}
+		case 4:
+			cur = &Sel{Kind: "f", Keys: []string{"Links"}, Kids: []*Sel{cur}}
+		default:
+			cur = &Sel{Kind: "u", Kids: []*Sel{{Kind: "m"}, cur}}
+		}
+	}
+	return cur
+}
+
+// genWide: a large selector: a union / fields clause with many members, each a bounded recursion
+func genWide(r *rand.Rand, members int, oneBad bool) *Sel {
+	s := &Sel{Kind: []string{"u", "f"}[r.Intn(2)]}
+	bad := -1
+	if oneBad {
+		bad = r.Intn(members)
+	}
+	for j := 0; j < members; j++ {
+		m := &Sel{Kind: "R", Depth: []int64{1, 5, 100}[r.Intn(3)], Stop: -1, Kids: []*Sel{{Kind: "a", Kids: []*Sel{{Kind: "e"}}}}}
+		if j == bad {
+			m.Depth = 101
+		}
+		if s.Kind == "f" {
+			s.Keys = append(s.Keys, fmt.Sprintf("k%d", j))
+		}
+		s.Kids = append(s.Kids, m)
+	}
+	return s
+}
+
 func Gen(seed int64, n int, tier string, w *bufio.Writer) {
 	r := rand.New(rand.NewSource(seed))
 	ssb := builder.NewSelectorSpecBuilder(basicnode.Prototype.Any)
@@ -818,6 +1046,16 @@ func Gen(seed int64, n int, tier string, w *bufio.Writer) {
 		nops := 3 + r.Intn(4)
 		for j := 0; j < nops; j++ {
 			max := maxGrid[r.Intn(len(maxGrid))]
+			if r.Intn(4) == 0 { // a non-canonical encoding of a well-formed selector
+				s := genSel(r, 1+r.Intn(5), false, true)
+				vc := &variantCfg{r: r, breakAt: -1}
+				if r.Intn(7) == 0 {
+					vc.breakAt = r.Intn(s.size())
+				}
+				st := s.String()
+				fmt.Fprintf(w, "alt %d %d %s %s\n", max, len(strings.Fields(st)), st, s.Variant(vc))
+				continue
+			}
 			switch k := r.Intn(10); {
 			case k < 6: // well-formed selector
 				s := genSel(r, 1+r.Intn(6), false, true)
@@ -841,6 +1079,25 @@ func Gen(seed int64, n int, tier string, w *bufio.Writer) {
 				fmt.Fprintf(w, "node %d %s\n", max, strings.TrimSpace(sb.String()))
 			}
 		}
+	}
+	// deeply nested and very wide selectors (a fixed small share of every run)
+	ndeep, nwide := 6+n/400, 2+n/2000
+	for i := 0; i < ndeep; i++ {
+		fmt.Fprintf(w, "case deep%d\n", i)
+		for j := 0; j < 3; j++ {
+			d := genDeep(r, 20+r.Intn(70))
+			fmt.Fprintf(w, "sel 100 %s\n", d.String())
+			if j == 2 {
+				st := d.String()
+				fmt.Fprintf(w, "alt 100 %d %s %s\n", len(strings.Fields(st)), st, d.Variant(&variantCfg{r: r, breakAt: -1}))
+			}
+		}
+	}
+	for i := 0; i < nwide; i++ {
+		fmt.Fprintf(w, "case wide%d\n", i)
+		fmt.Fprintf(w, "sel 100 %s\n", genWide(r, []int{150, 400, 700}[r.Intn(3)], false).String())
+		fmt.Fprintf(w, "sel 100 %s\n", genWide(r, 400, true).String())
+		fmt.Fprintf(w, "sel 100 %s\n", genWide(r, 20, r.Intn(2) == 0).String())
 	}
 	if tier == "thorough" {
 		genExhaustive(w)
